@@ -132,7 +132,19 @@ def run_selftest(pid):
     import shutil
     import tempfile
     sd = os.path.join(ROOT, "seeded")
-    seeds = sorted(x for x in os.listdir(sd) if x.startswith(pid + "-")) if os.path.isdir(sd) else []
+    seeds = []
+    for x in sorted(os.listdir(sd)) if os.path.isdir(sd) else []:
+        mf = os.path.join(sd, x, "meta.json")
+        if not os.path.isfile(mf):
+            continue
+        try:
+            viol = json.load(open(mf)).get("violates")
+        except Exception:
+            viol = None
+        # a change is a self-test case of the property it was written against, unless its meta.json says which
+        # properties it really violates (C02-H: written against C02, violates C05 / C06 -- DESIGN section 9)
+        if (viol is None and x.startswith(pid + "-")) or (viol is not None and pid in viol):
+            seeds.append(x)
     res = {"total": 0, "killed": 0, "survivors": [], "details": []}
     for s_ in seeds:
         d = tempfile.mkdtemp(prefix="selftest-%s-" % s_)
